@@ -24,6 +24,8 @@ FirstADV == {TokStart}
 TokRAWCRC   == { TokByte(b) : b \in {27, 26, 0, 85} } \cup {TokEsc4, TokCrc}
 FirstRAWCRC == {TokStart}
 
+RealignLoose == FALSE   \* overrides Decoder.RealignStrict in the negative control `neg_realign_loose`
+
 \* HIST: ADV plus finalize / reset anywhere, from a new decoder
 TokHIST   == TokADV \cup {TokFin, TokRst}
 FirstHIST == TokHIST
